@@ -78,6 +78,10 @@ fn gen(t: &mut Tape, _tier: Tier) -> Scenario {
     } else {
         sc.set_i("ep", EP_LZMA);
     }
+    let rk = [RK_SLICE, RK_SIM, RK_BUFREADER, RK_CHAIN, RK_CURSOR][t.below(5) as usize];
+    sc.set_i("rk", rk);
+    sc.set_i("bufcap", if rk == RK_CHAIN { t.below(20) } else { t.range(1, 40) });
+    sc.set_l("src_script", crate::gen::draw_script(t));
     sc.note = format!(
         "lc={} lp={} pb={} dict_hdr={} true length {} marker={} header size field {} {}; {}",
         b.props.lc,
@@ -204,7 +208,22 @@ fn exec(sc: &Scenario, ctx: &mut Ctx) -> Vec<Violation> {
         let g = st.borrow().accepted.clone();
         (stream_verdict(&o), g)
     } else {
-        let (v, out, _) = simple_decode(EP_LZMA, input, &opts, &RawSpec::default());
+        // the rules do not depend on the reader: the one-shot decoder is driven
+        // through the reader behaviour the scenario names
+        let mut out = Vec::new();
+        let (v, _) = run_with_reader(
+            EP_LZMA,
+            input,
+            sc.i("rk"),
+            sc.l("src_script"),
+            Faults::none(),
+            sc.i("bufcap") as usize,
+            &mut out,
+            &opts,
+            &RawSpec::default(),
+            0,
+            0,
+        );
         (v, out)
     };
     let rule = match rules(sc) {
